@@ -119,13 +119,13 @@ export function* generate({ tier, seed }) {
     if (tier === 'quick') yield emit(hk, seq, [OPTS[rng.int(4)]]);
     else yield emit(hk, seq, seq.length < 3 ? OPTS : [OPTS[rng.int(4)]]);
   }
-  const nRand = tier === 'quick' ? 1500 : 30000;
+  const nRand = tier === 'quick' ? 12000 : 250000;
   for (let i = 0; i < nRand; i++) {
     const len = 3 + rng.int(4);
     const kinds = []; for (let j = 0; j < len; j++) kinds.push(rng.pick(ALPHABET));
     yield emit(rng.pick(['element', 'component']), kinds, [rng.pick(OPTS)]);
   }
-  const nTrees = tier === 'quick' ? 1200 : 20000;
+  const nTrees = tier === 'quick' ? 8000 : 150000;
   for (let i = 0; i < nTrees; i++) {
     const c = buildTreeCase(rng);
     yield { gid: `C13-tree-${i}`, src: c.src, syntax: 'jsx', spec: c.spec, feature: `tree|${c.src.length}|${i % 997}`, variants: [{ vid: 'v0', options: { optimize: true, enableObjectSlots: rng.bool(0.8) } }] };
